@@ -28,10 +28,11 @@ type Env struct {
 	at          *ssa.BasicBlock
 	depth       int
 	clause      *Clause
+	captured    map[string]types.Type // names bound to cells of by-reference captured variables
 }
 
 func (g *FnGen) envAt(st, old *State, rs []SVal) *Env {
-	e := &Env{g: g, vars: g.params, st: st, old: old, pkg: g.pkg, results: rs}
+	e := &Env{g: g, vars: g.params, st: st, old: old, pkg: g.pkg, results: rs, captured: g.captured}
 	if rs != nil {
 		e.rnames = g.resultNames()
 	}
@@ -213,11 +214,22 @@ func (g *FnGen) evalIdent(env *Env, name string) SVal {
 			return env.results[i]
 		}
 	}
+	if et, ok := env.captured[name]; ok && env.depth == 0 {
+		if v, ok := env.vars[name]; ok {
+			if _, isStruct := types.Unalias(et).Underlying().(*types.Struct); isStruct {
+				return v
+			}
+			key, srt := g.w.cellKey(et)
+			return SVal{Term{fmt.Sprintf("(select %s %s)", g.hget(env.st, key).S, v.S), srt}, et}
+		}
+	}
 	if v, ok := env.vars[name]; ok && (env.at == nil || env.depth > 0) {
 		return v
 	}
 	// locals (loop invariants): a reassigned parameter is a phi carrying the parameter's name
 	if env.at != nil && env.depth == 0 {
+		// the phi carrying this name in the closest dominating block (the loop header itself first)
+		var bestPhi *ssa.Phi
 		for _, blk := range g.fn.Blocks {
 			if blk != env.at && !blk.Dominates(env.at) {
 				continue
@@ -227,15 +239,24 @@ func (g *FnGen) evalIdent(env *Env, name string) SVal {
 				if !ok {
 					break
 				}
-				if phi.Comment == name {
-					if t, ok := env.phiOverride[phi]; ok {
-						return SVal{t, phi.Type()}
-					}
-					if t, ok := g.vals[phi]; ok {
-						return SVal{t, phi.Type()}
+				if phi.Comment != name && !(name == "rangeint" && phi.Comment == "rangeint.iter") {
+					continue
+				}
+				if _, ov := env.phiOverride[phi]; !ov {
+					if _, have := g.vals[phi]; !have {
+						continue
 					}
 				}
+				if bestPhi == nil || bestPhi.Block().Dominates(blk) {
+					bestPhi = phi
+				}
 			}
+		}
+		if bestPhi != nil {
+			if t, ok := env.phiOverride[bestPhi]; ok {
+				return SVal{t, bestPhi.Type()}
+			}
+			return SVal{g.vals[bestPhi], bestPhi.Type()}
 		}
 		var best *debugRef
 		for i := range g.debug[name] {
